@@ -96,7 +96,8 @@ def gen_world(rng, i, tier):
             w["ops"].append(["groups"])
         else:
             w["ops"].append(rng.pick([["set_nokey", spell(rng, s), rng.pick([None, ""])], ["set_noobj", spell(rng, s), k], ["get_nokey", spell(rng, s), rng.pick([None, ""])],
-                                      ["get_noobj", spell(rng, s), k], ["keys_noobj"], ["groups_noobj"], ["getdef_noobj", spell(rng, s), k]]))
+                                      ["get_noobj", spell(rng, s), k], ["keys_noobj"], ["groups_noobj"], ["getdef_noobj", spell(rng, s), k],
+                                      ["getdef_nokey", rng.pick(["Int", "UInt64", "Bool", "Double"]), spell(rng, s), rng.pick([None, ""])]]))
     return w
 
 
@@ -124,6 +125,8 @@ def to_exec(a):
         return {"op": "get", "k": NOOBJ, "type": "String", "group": a[1], "key": a[2]}
     if o == "getdef_noobj":
         return {"op": "get", "k": NOOBJ, "type": "String", "group": a[1], "key": a[2], "def": "d"}
+    if o == "getdef_nokey":
+        return {"op": "get", "k": 0, "type": a[1], "group": a[2], "key": a[3], "def": {"Int": -7, "UInt64": 7000000000, "Bool": True, "Double": -0.125}[a[1]]}
     if o == "keys_noobj":
         return {"op": "getKeys", "k": NOOBJ, "group": None}
     if o == "groups_noobj":
@@ -239,6 +242,8 @@ def check(world, plans, results):
                 v.fail("get:null-after-set", "%s: the key was set to %r but the getter hands back a NULL pointer" % (where, e[2]))
         elif o == "getdef":
             ty, g, k, d = a[1], a[2], a[3], a[4]
+            if r.get("out_is_default"):
+                v.fail("getdef:touched", "%s: the call failed with %r, the key is not absent, and yet the caller's result variable holds the default (it is delivered exactly when the key is absent)" % (where, r["rc"]))
             e = m.find(g, k)
             if e is None:
                 flags["miss"] = True
@@ -284,6 +289,8 @@ def check(world, plans, results):
         else:
             if r.get("rc", 1) == 0:
                 v.fail("refusal", "%s: call without object / without key returned success" % where)
+            if r.get("out_changed"):
+                v.fail("refusal:effect", "%s: the refused call changed the caller's result variable" % where)
     # final listing: the whole model
     fin = rs[ri]
     from ..models import dump_to_conf
